@@ -18,6 +18,17 @@ Check (C09_read_your_writes : forall parse_obj member,
      (not_container s (fst r) -> forall f r0, fst r0 <> fst r ->
         resolve_ref parse_obj member f s' r0 = resolve_ref parse_obj member f s r0))).
 
+Check (C09_create_nested : forall parse_obj member s v s' rp rc,
+  create_nested s v = Ok (s', (rp, rc)) ->
+  rp = (lenN (refs s), 0) /\ rc = (lenN (refs s) + 1, 0) /\ fst rp <> fst rc /\
+  (forall f g, resolve_ref parse_obj member f s' (fst rc, g) = Ok v) /\
+  (forall f g, resolve_ref parse_obj member f s' (fst rp, g) = Ok (PDict [(k_Child, PRef (fst rc) (snd rc))])) /\
+  (not_container s (fst rp) -> not_container s (fst rc) -> forall f r0, fst r0 <> fst rp -> fst r0 <> fst rc ->
+     resolve_ref parse_obj member f s' r0 = resolve_ref parse_obj member f s r0) /\
+  backend s' = backend s /\ cache s' = [] /\ lenN (refs s') = lenN (refs s) + 2).
+
+Check (C09_create_is_create_with : forall s v, create_with s (fun s1 => Ok (s1, v)) = Ok (create s v)).
+
 Check (C09_get_coherent : forall parse_obj member s r s' v,
   cache_ok parse_obj member s -> get parse_obj member s r = (s', v) ->
   v = resolve parse_obj member s r /\ cache_ok parse_obj member s' /\ refs s' = refs s /\ changes s' = changes s /\
